@@ -62,17 +62,18 @@ ASSUMPTIONS = [
 ]
 
 TIERS = {
-    "quick": dict(mc_depth=9, cov_depth=4, sim_inv=150, sim_inv_depth=30, dump_depth=4, dump_sizes_depth=3,
+    "quick": dict(mc_depth=8, cov_depth=4, sim_inv=150, sim_inv_depth=30, dump_depth=4, dump_sizes_depth=3, dump_peer_depth=4,
                   max_walk=120, step_budget=8000, sim_walks=60, sim_depth=18, hist=70, hist_len=24,
                   tlc_timeout=900),
-    "thorough": dict(mc_depth=12, cov_depth=5, sim_inv=8000, sim_inv_depth=40, dump_depth=5, dump_sizes_depth=4,
+    "thorough": dict(mc_depth=12, cov_depth=5, sim_inv=8000, sim_inv_depth=40, dump_depth=5, dump_sizes_depth=4, dump_peer_depth=5,
                      max_walk=200, step_budget=60000, sim_walks=1200, sim_depth=30, hist=2000,
                      hist_len=40, tlc_timeout=2400),
 }
 
 _COV = re.compile(r"^<(\w+) line \d+, col \d+ to line \d+, col \d+ of module ImageIter(?: \([\d ]+\))?>: (\d+):(\d+)", re.M)
 ACTIONS = ["Open", "Format", "Str", "Draw", "Iter", "Next_", "IterSeek", "ImageSeek", "NFrames",
-           "SetSize", "Resize", "CloseIter", "DropIter", "CloseImage", "DropImage"]
+           "SetSize", "Resize", "CloseIter", "DropIter", "CloseImage", "DropImage",
+           "PeerOpen", "PeerFormat", "PeerClose", "PeerDrop"]
 
 
 # ------------------------------------------------------------------------------- TLC side
@@ -291,6 +292,7 @@ class Tracker:
         self.it = "none"
         self.faulted = False
         self.tell_known = True
+        self.peer = "none"
 
     def update(self, a, res):
         op = a["op"]
@@ -322,6 +324,12 @@ class Tracker:
             self.it = "closed"
         elif op == "dropiter":
             self.it = "none"
+        elif op == "peeropen" and res == "ok":
+            self.peer = "open"
+        elif op == "peerclose":
+            self.peer = "closed"
+        elif op == "peerdrop":
+            self.peer = "none"
         elif op == "closeimage":
             self.closed = True
         elif op == "dropimage":
@@ -329,6 +337,11 @@ class Tracker:
 
     def choose(self, rng: random.Random, native: bool) -> dict:
         A = W.new_action
+        # a second URL image alive at the same time (same file name in its URL)
+        if self.peer != "none" and rng.random() < 0.22:
+            return A(rng.choice(["peerformat", "peerformat", "peerclose", "peerdrop"]))
+        if self.kind == "url" and self.peer == "none" and rng.random() < 0.15:
+            return A("peeropen", pvar=rng.choice(["same", "other"]))
         if self.kind == "none":
             kind = rng.choice(["path", "pil", "url", "url"])
             oc = rng.choice(["ok"] * 5 + ["ctorFails"] + (["404", "notImage"] if kind == "url" else []))
@@ -425,9 +438,13 @@ def random_history(world_args, rng: random.Random, length: int) -> dict:
 # ------------------------------------------------------------------------------- verdicts
 def signature(trace: dict, at: int, verdict: str) -> str:
     ev = trace["events"][at - 1]
-    kind, closed = trace["init"]["kind"], False
+    kind, closed, peer = trace["init"]["kind"], False, ""
     for e in trace["events"][: at - 1]:
         a, res = e["a"], e["o"]["res"]
+        if a["op"] == "peeropen" and res == "ok":
+            peer = "+peer-" + a["pvar"]
+        elif a["op"] in ("peerclose", "peerdrop") and peer:
+            peer = "+peer-gone"
         if a["op"] == "open" and res == "ok":
             kind, closed = a["kind"], False
         elif a["op"] == "closeimage":
@@ -437,7 +454,9 @@ def signature(trace: dict, at: int, verdict: str) -> str:
     a, o = ev["a"], ev["o"]
     if a["op"] == "open":
         kind = a["kind"] + "-" + a["outcome"]
-    ctx = kind + ("+image-closed" if closed else "") + ("+fault" if a["fault"] != "none" else "")
+    if a["op"] == "peeropen":
+        peer = "-" + a["pvar"]
+    ctx = kind + ("+image-closed" if closed else "") + ("+fault" if a["fault"] != "none" else "") + peer
     op = a["op"] + ("-animated" if a["op"] == "draw" and a["animated"] else "")
     clause = verdict.split(":")[0]
     # an exception the specification does not allow here is named in the signature
@@ -597,6 +616,7 @@ def run_replay(rep: Report, replay: dict, server, stats: Counter) -> None:
                 break
             a = dict(a)
             a.setdefault("during", "")
+            a.setdefault("pvar", "")
             fault = (a["fault"], a.pop("k", 1)) if a["fault"] != "none" else None
             world.execute(a, fault=fault)
         trace = world.trace()
@@ -678,7 +698,9 @@ def run_all(rep: Report, T: dict, server, stats: Counter) -> None:
                         "main", T["step_budget"])
     sizes = replay_edges(rep, T, server, stats, rng, all_ok_traces, "DumpSizes_ImageIter.cfg",
                          "dump_sizes_depth", "sizes", T["step_budget"] // 2)
-    rep.exhaustive = full and sizes
+    peers = replay_edges(rep, T, server, stats, rng, all_ok_traces, "DumpPeer_ImageIter.cfg",
+                         "dump_peer_depth", "peer", T["step_budget"] // 2)
+    rep.exhaustive = full and sizes and peers
 
     # ---- spec -> code: deep simulated behaviours of the full instance
     t0 = time.time()
@@ -735,7 +757,8 @@ def run_all(rep: Report, T: dict, server, stats: Counter) -> None:
         problems.append(f"no injected failure ever fired at step(s) {missing}")
     if stats.get("hits_expected") and not stats.get("hits_observed"):
         rep.notes.append("the cached iterators never reused a stored frame (speed only, no clause)")
-    for need in ("pairs", "hits_expected", "op:draw", "resize-during-draw", "open:url:ok:ok",
+    for need in ("pairs", "hits_expected", "op:draw", "resize-during-draw", "op:peeropen",
+                 "op:peerformat", "op:peerclose", "open:url:ok:ok",
                  "open:url:404:URLNotFoundError", "open:url:notImage:UnidentifiedImageError",
                  "open:url:ctorFails:ValueError", "open:pil:ok:ok"):
         if not stats.get(need):
